@@ -105,6 +105,7 @@ type ContractSet struct {
 	Axioms       []*Clause
 	Stable       []string // "T.f"
 	ImmutableImpl [][]string // pkgDir, interface name, files whose functions may build the implementations
+	PublishedBy   [][]string // pkgDir, T.f, T.flag, functions that establish the flag
 	JSPreserved  []string // "T.f"
 	Extern       map[string]bool
 	All          []*Contract
@@ -274,6 +275,22 @@ func parseContractFile(cs *ContractSet, path, pkgDir string) {
 				}
 				cs.Extern[f] = true
 				cs.Scan = append(cs.Scan, fmt.Sprintf("assumed: %s does not modify modelled state; its result is unconstrained (%s:%d)", f, filepath.Base(path), ln+1))
+			}
+		case strings.HasPrefix(l, "publishedby "):
+			// publishedby T.f T.flag via F...: a lazily filled field may only be read after the atomic flag
+			// that publishes it was seen set, or after one of the listed functions (which wait for the
+			// once-only initialisation) was called on the same object
+			f := strings.Fields(strings.TrimPrefix(l, "publishedby "))
+			if len(f) >= 2 {
+				ent := []string{pkgDir, f[0], f[1]}
+				for _, x := range f[2:] {
+					if x != "via" {
+						ent = append(ent, x)
+					}
+				}
+				cs.PublishedBy = append(cs.PublishedBy, ent)
+			} else {
+				cs.Errors = append(cs.Errors, fmt.Sprintf("%s:%d: bad publishedby directive", path, ln+1))
 			}
 		case strings.HasPrefix(l, "immutable-impl "):
 			// immutable-impl <Interface> built-in <file>...: no function outside the listed files stores to a
